@@ -40,7 +40,7 @@ func (c *c11Case) id() string {
 
 func faultKinds(typ string) []string {
 	if typ == "panos" || typ == "nsx" {
-		return []string{"http-500", "http-403", "close", "badxml", "status-error", "stall"}
+		return []string{"http-500", "http-403", "http-403-empty", "http-502-empty", "close", "badxml", "status-error", "stall"}
 	}
 	return []string{"error", "garbage", "close", "noecho", "stall"}
 }
